@@ -762,3 +762,54 @@ def in_range_edges(fn, blocks=None):
     return edges, cmps
 
 
+
+
+OP_ADT = "compiler::ast::math_expr::Op"
+
+
+def _opt_truth(c, idx):
+    n = c.callee()
+    if n.startswith("core::option::Option::<") and n.endswith(">::is_some"):
+        return True
+    if n.startswith("core::option::Option::<") and n.endswith(">::is_none"):
+        return "not"
+    return None
+
+
+def op_predicate_value(F, name, variant_name):
+    """Truth of an Op method on one variant, by evaluation: True / False for a bool, Some / None for an Option; None when not decided."""
+    from absint import Interp, Int, Variant
+    oa = F.adt(OP_ADT)
+    pf = F.fn(name)
+    on = [v["name"] for v in oa["variants"]]
+    if pf is None or variant_name not in on:
+        return None
+    outs = Interp(F, max_depth=3, max_paths=64).run(pf, [Variant(OP_ADT, on.index(variant_name), variant_name, [])])
+    vals = set()
+    for o in outs:
+        if o.kind != "return":
+            vals.add(None)
+        elif isinstance(o.value, Int):
+            vals.add(bool(o.value.v))
+        elif isinstance(o.value, Variant) and o.value.name in ("Some", "None"):
+            vals.add(o.value.name == "Some")
+        else:
+            vals.add(None)
+    return vals.pop() if len(vals) == 1 else None
+
+
+def storing_operator_conditions(F, ft):
+    """How Expr::for_type asks whether the operator of `a op b` stores into a: the calls of methods of Op on the operator (today
+    Op::is_op_assign; a helper such as `applied_op().is_some()` is the same question) whose answer a branch is taken on.
+    Returns (calls, derived) where `derived` maps each bool local computed from an answer to its polarity."""
+    calls = []
+    for c in ft.calls():
+        n = mir.strip_generics(c.callee())
+        if n.startswith(OP_ADT + "::") and c.dst is not None and c.args and op_local(c.args[0]) is not None \
+                and "math_expr::Op" in ft.locals[op_local(c.args[0])]:
+            der = ft.derived([c.dst["l"]], through_call=_opt_truth)
+            # ... and the question is that one: yes for `+=`, no for `+`
+            if bool_switches(ft, der) and op_predicate_value(F, n, "AddAssign") is True and op_predicate_value(F, n, "Add") is False:
+                calls.append(c)
+    der = ft.derived([c.dst["l"] for c in calls], through_call=_opt_truth) if calls else {}
+    return calls, der
